@@ -186,6 +186,38 @@ Proof.
   destruct (assim_of a) as [gp mt]. cbn [fst snd] in *. split; [lra | exact H3].
 Qed.
 
+(* ==================================================================== *)
+(* maintenance shares *)
+
+Lemma fold_maint (ps : list (R * R)) (a : R) :
+  fold_left (fun a p => a + fst p * snd p) ps a = a + Rsum (map (fun p => fst p * snd p) ps).
+Proof. revert a; induction ps as [|p r IH]; intros a; cbn [fold_left map Rsum]; [lra|]. rewrite IH. lra. Qed.
+
+Lemma maint_sum_eq (worg mairt : list R) : maint_sum worg mairt = Rsum (map (fun p => fst p * snd p) (combine worg mairt)).
+Proof. unfold maint_sum. rsimp. rewrite (fold_maint (combine worg mairt) 0). lra. Qed.
+
+(* the organs' maintenance shares are >= 0 and sum to exactly 1 whenever the maintenance sum is positive *)
+Lemma mant_shares (worg mairt : list R) :
+  Forall (fun p => 0 <= fst p * snd p) (combine worg mairt) -> 0 < maint_sum worg mairt ->
+  Forall (fun m => 0 <= m <= 1) (mant_of worg mairt) /\ Rsum (mant_of worg mairt) = 1.
+Proof.
+  intros Hp Hs. unfold mant_of. cbv zeta. set (s := maint_sum worg mairt) in *.
+  assert (Es : s = Rsum (map (fun p => fst p * snd p) (combine worg mairt))) by apply maint_sum_eq.
+  split.
+  - assert (Hle : forall ps, Forall (fun p : R * R => 0 <= fst p * snd p) ps -> Rsum (map (fun p => fst p * snd p) ps) <= s ->
+                  Forall (fun m => 0 <= m <= 1) (map (fun p => fst p * snd p / s) ps)).
+    { induction ps as [|p r IH]; intros H Hb; cbn [map]; constructor.
+      - inversion H as [|? ? H1 H2]; subst. cbn [map Rsum] in Hb.
+        assert (0 <= Rsum (map (fun p => fst p * snd p) r)).
+        { clear -H2. induction r as [|q r IH]; cbn; [lra|]. inversion H2; subst. specialize (IH H3). lra. }
+        rsimp. split; [unfold Rdiv; apply Rmult_le_pos; [assumption | left; apply Rinv_0_lt_compat; assumption]|].
+        apply (Rmult_le_reg_r s); [assumption|]. unfold Rdiv. rewrite Rmult_assoc, Rinv_l by lra. lra.
+      - inversion H as [|? ? H1 H2]; subst. apply IH; [assumption|]. cbn [map Rsum] in Hb. lra. }
+    apply Hle; [exact Hp | lra].
+  - rsimp. rewrite <- (map_map (fun p : R * R => fst p * snd p) (fun x => x / s)).
+    rewrite Rsum_map_div, <- Es. field. lra.
+Qed.
+
 Definition radia_example : rd_in (T:=R) :=
   {| rd_temp := 18; rd_mintmp := 4; rd_maxamax := 50; rd_co2 := 400; rd_meth := 2; rd_temptyp := 1;
      rd_rad := 9; rd_sund := 6; rd_lai := 3; rd_dl := 15; rd_dle := 13; rd_rdn := 30000; rd_drc := 25000000;
